@@ -44,6 +44,9 @@ type Stmt struct {
 	Tag  string
 	F    string
 	Args []ArgX
+	// kind "h": a hole expression (HKind "var", "idx", "call") in expression position Pos
+	Pos   int
+	HKind string
 }
 
 // ArgX kinds: "v" bare variable, "k" constant, "x" expression using V as a scalar,
@@ -173,6 +176,8 @@ func (s *Stmt) text() string {
 			return s.callText()
 		}
 		return w + " = " + s.callText()
+	case "h":
+		return s.posText()
 	case "o": // observe an array element in a global
 		return fmt.Sprintf("O_ = O_ %s[\"k\"]", v)
 	case "m": // membership test
@@ -226,6 +231,8 @@ func (s *Stmt) events() []Event {
 			return []Event{use(v, TUnknown), use(v, TArray)}
 		}
 		return []Event{use(v, TScalar)}
+	case "h":
+		return s.posEvents()
 	case "o":
 		return []Event{use("O_", TScalar), use("O_", TScalar), use(v, TArray)}
 	case "m":
@@ -242,6 +249,8 @@ type Item struct {
 	Name   string
 	Params []string
 	PatVar string // action: optional pattern variable ("" = no pattern)
+	Pat    *Stmt  // action: optional pattern (a hole expression); Pat2: second of a range pattern
+	Pat2   *Stmt
 	Body   []*Stmt
 }
 
@@ -256,6 +265,7 @@ type Native struct {
 
 type Prog struct {
 	Family  string
+	Note    string
 	Natives []Native
 	Items   []Item
 	Exec    bool // rendered with the recursion guard; can be executed
@@ -267,6 +277,9 @@ func (it *Item) events(exec bool) []Event {
 	var es []Event
 	if it.Kind == "action" && it.PatVar != "" {
 		es = append(es, use(it.PatVar, TScalar))
+	}
+	if it.Kind == "action" {
+		es = append(es, patEvents(it)...)
 	}
 	if it.Kind == "func" && exec {
 		es = append(es, use(guardVar, TScalar), use(guardVar, TScalar))
@@ -295,6 +308,9 @@ func (it *Item) text(exec bool) string {
 	case "action":
 		if it.PatVar != "" {
 			sb.WriteString(it.PatVar + " ")
+		}
+		if it.Pat != nil {
+			sb.WriteString(patText(it) + " ")
 		}
 		sb.WriteString("{")
 	}
@@ -421,6 +437,12 @@ func (p *Prog) renamed(r func(string) string) *Prog {
 		jt := it
 		jt.Name = r(it.Name)
 		jt.PatVar = r(it.PatVar)
+		if it.Pat != nil {
+			jt.Pat = renameStmt(it.Pat, r)
+		}
+		if it.Pat2 != nil {
+			jt.Pat2 = renameStmt(it.Pat2, r)
+		}
 		jt.Params = nil
 		for _, x := range it.Params {
 			jt.Params = append(jt.Params, r(x))
